@@ -23,6 +23,10 @@ Domain : configuration (Colang 1.0 / 2.x, 1-4 input rails drawn in order from th
          UtteranceUserActionFinished events in one process_events call of the state API): one event-processing cycle.
          x concurrent leg: 2-3 conversations served at the same time by ONE LLMRails instance (asyncio tasks on a virtual-time
          loop, start offsets, a latency per rail invocation and per LLM call: the rail actions really wait).
+         x (Colang 1.0) what the action of a generated check / block-or-rewrite rail returns for 'not allowed': False, None, 0 or ""
+         (rails of one kind share ONE verdict variable, as the shipped rails do: `$allowed` / `$vf_checked`).
+         x (Colang 1.0) OTHER conversations served by the same LLMRails instance between two turns of the conversation: 0 / 1-3 /
+         70-200 generate calls (one turn each, texts of their own).
 Oracle : reference model of the input chain (vf.pipeline.model_input) checked on three observation channels:
          (a) trace of rail-action invocations (order, text seen), (b) prompt log of the scripted LLM,
          (c) the value returned by generate.
@@ -83,13 +87,22 @@ RULE = (
     "every rail action really waits (await asyncio.sleep on the virtual clock, latency drawn per invocation from 0-50 ms: a cycled list of 1-5) and so does every LLM call (0-30 ms, list of 1-3), so that while conversation A waits inside a "
     "rail action conversation B starts and runs its rails. The conversations carry disjoint turn numbers, hence disjoint markers; each is judged on its own with the unchanged reference model (every rail sees ITS text, its verdicts apply to it only: "
     "a rejected one gets its refusal and no LLM call, an accepted one its prompts with its own text). LLM parameters are not looked at (C15). "
-    "Enumerated families: (first, so that a cut wall budget keeps it) the waiting form: pattern shape x rail style x refusal/exception x who waits with the pattern (a listener next to a main flow that waits for one literal text: every message heard by one flow / the main flow next to an any-utterance listener / a listener next to the main flow that takes anything), both spellings, "
+    "Two thirds of the Colang 1.0 configurations (both legs) draw, per generated check / block-or-rewrite rail, WHAT THE RAIL ACTION RETURNS FOR 'not allowed': False (1 in 6), None (1 in 2), 0 (1 in 6) or the empty string (1 in 6); "
+    "the generated rail flows have the shape of the shipped ones (`$allowed = execute ...` / `if not $allowed` ... `stop`; all check rails and the shipped rail keep their verdict in ONE variable `$allowed`, all block-or-rewrite rails in `$vf_checked`), "
+    "so a rail whose action returns no truthy value rejects: the reference model is unchanged (labels not-allowed-results=, rejected-with-result=, falsy-non-False-reject-after-a-rail-with-the-same-verdict-variable-accepted-in-this-turn / -after-an-earlier-turn-left-the-verdict-variable-truthy). "
+    "One Colang 1.0 conversation in three has OTHER CONVERSATIONS served by the same LLMRails instance between two of its turns: before one drawn turn >= 2 the harness makes 1-3 (half of them) or 70 / 80 / 100 / 200 (half) generate calls "
+    "through the same API, each an unrelated conversation of one turn with a text of its own (`OC{t}N{n}Z hello there`, every rail accepts, predefined-answer route) and a session of its own; a third of the conversations of >= 3 turns get 1-3 more before another turn. "
+    "A conversation with 70+ of them is given a rewriting rail, general mode 3 in 4, and (2 in 3) a turn before them whose text that rail rewrites. The oracle is unchanged: the prompts of every later turn must not show the original of a text an input rail rewrote in an earlier turn "
+    "(labels other-conversations-on-the-instance-before-this-turn=0|1-3|70+, few-/many-other-conversations-between-a-rewritten-turn-and-this-turn). "
+    "Enumerated families: (first, so that a cut wall budget keeps them) other conversations between two turns: 70 / 0 / 1 / 200 of them x general / dialog / passthrough+dialog x which rail rewrites (turn 1 rewritten, the others, turn 2 accepted, one more, turn 3 rewritten by the other rail, turn 4 rejected); "
+    "'not allowed' result None / 0 / \"\" / False x six rail chains (check+check, check alone, both+both, shipped+check, check+both+check, rewrite+check+shipped) x refusal / rail exception: accepted, rejected by the last rail, by the first, accepted, same text rejected again; the waiting form: pattern shape x rail style x refusal/exception x who waits with the pattern (a listener next to a main flow that waits for one literal text: every message heard by one flow / the main flow next to an any-utterance listener / a listener next to the main flow that takes anything), both spellings, "
     "the matching text accepted, sent again and rejected by the last rail, another turn rejected by the first rail; every reference name x four v1 and three v2 configurations; input-off spelling x later options x position of the input-off call; "
     "every exception event type x two v1 and two v2 configurations with each rail rejecting once; listener action x awaited text x rail style x refusal/exception (one or two listeners, main flow waiting for anything / one text); "
     "concurrent leg: five configurations (v1 general / dialog+exceptions+shipped rail / raw passthrough, v2 hand / config) x five schedules (who waits where while the other one runs its rails) x which conversation is rejected by which rail, 2-3 conversations; "
     "two messages in one call: listener action x six verdict pairs x who waits for what (main flow anything + listener the expected text / main flow the expected text + listener anything / expected text first and a listener per text) x refusal/exception x generate sync/async/state API, with and without an output rail. "
     "Non-trivial = at least 2 input rails and (a reject after an accepting/rewriting rail, or a rewrite followed by a later "
     "rail) in some turn, or a reject in a turn >= 2, or an exact `$name` user text in a turn >= 2, or a judged call after a call that switched the input rails off, "
+    "or a turn >= 2 that follows other conversations on the instance and a turn whose text was rewritten, "
     "or a turn heard by flows in >= 2 interaction loops with >= 2 rails or a reject, or a turn heard by a flow that waits with a pattern with >= 2 rails or a reject, or a call with two user messages and >= 2 rails or a reject; "
     "concurrent leg: a rail invocation or LLM call of ANOTHER conversation ran between two consecutive steps (rail, rail) or (last rail, first generation call) of a turn's input chain; distinct by the whole case."
 )
@@ -111,6 +124,8 @@ ASSUMPTIONS = [
     "several generate_async calls may be in flight on one LLMRails instance (the server works that way); the conversations served at the same time carry different texts; the fake rail actions wait on the event loop's (virtual) clock after they recorded what they were given; which LLM parameters overlapping calls see is C15's subject (two open findings) and is not looked at here",
     "two user messages in one call (Colang 2.x): a flow that waits for any utterance takes the FIRST message of the call; for the second one only flows that wait for exactly its text are required to hear it (a message no flow hears gets no rails and reaches nothing: counted, label second-heard-by-no-flow). The reply of such a call is the list of all bot utterances: only the presence of the refusal / rail exception of a rejected message is asserted, and that nothing else is in it when every message was rejected",
     "two user messages in one call are generated with rails that are given the text as a parameter (hand-written `flow input rails $input_text`, check rails) and with flows that pass on the transcript they matched: the global `$user_message` holds the NEWEST utterance from the moment it arrives, before its rails have run - rails that read the global (config.yml style, the shipped `self check input`) and flows that read it after an earlier message passed get the newer text on the unchanged tree (reported to the coordinator as an observation; not generated, so not judged)",
+    "a generated rail flow tests its verdict variable for truth (`if not $allowed`, the shipped rails' shape), so every falsy action result - False, None, 0, the empty string - is a rejection; a rail action that returns None is an action without a return statement on the 'not allowed' path",
+    "one LLMRails instance serves many conversations (the server keeps one per configuration): the calls made between two turns of the conversation under test are sequential, carry other texts, no generation options, and are not judged themselves; the conversation under test passes its own history back unchanged, so the library still recognises it however many other conversations it served meanwhile (no documented limit on their number)",
     "a turn that needs more than 100 internal events makes the Colang 1.0 runtime raise `Too many events.` (safety limit); such cases (many rails + long routes) are counted as skipped, not judged",
     "two messages in one call (Colang 2.x): when an output rail of that turn does not accept, the refusal an input rail utters for a rejected message is itself judged by the output rails (and a parallel bot message meets the open finding C02-F23); what the reply then holds is not asserted by C01 (label two-utterances:refusal-not-judged...), the rail-chain, order and no-LLM-call clauses still are",
 ]
@@ -308,11 +323,42 @@ def _slow_rail_action(cat, i, name):
     return fakes._system(rail_action, name)
 
 
+# Colang 1.0: what the action of a generated input rail hands back for "not allowed".  The generated rail flows are of the
+# shape the shipped rails have (`$allowed = execute ...` / `if not $allowed` ... `stop`): a rail whose action does not return
+# a truthy value rejects.  "false" is the standard fake (vf.fakes.make_rail_action); the others return another falsy value.
+REJECT_VALUES = {"false": False, "none": None, "zero": 0, "empty": ""}
+REJECT_HOW = ["false", "none", "none", "none", "zero", "empty"]
+
+
+def _falsy_variant(fn, name, value):
+    """The rail action `fn` (standard or waiting variant) with `value` in the place of False as its 'not allowed' result."""
+
+    async def rail_action(text=None, context=None):
+        res = await fn(text=text, context=context)
+        return value if res is False else res
+
+    rail_action.__name__ = name
+    return fakes._system(rail_action, name)
+
+
+def reject_how(cfg, i):
+    how = cfg.get("in_rej") or []
+    return (how[i] if i < len(how) else None) or "false"
+
+
 def _ext_actions(cfg):
-    """cfg["slow"]: the rail actions of the configuration are the waiting variants (registered under the same names)."""
-    if not cfg.get("slow"):
-        return []
-    return [_slow_rail_action(cat, i, pipeline.rail_action_name(cat, i, cfg["v"])) for cat in ("in", "out") for i, kind in enumerate(cfg.get(cat, [])) if kind != "self"]
+    """cfg["slow"]: the rail actions of the configuration are the waiting variants (registered under the same names);
+    cfg["in_rej"][i]: what the action of generated input rail i returns for 'not allowed' (None / "false": False)."""
+    out = []
+    for cat in ("in", "out"):
+        for i, kind in enumerate(cfg.get(cat, [])):
+            how = reject_how(cfg, i) if cat == "in" else "false"
+            if kind == "self" or not (cfg.get("slow") or how != "false"):
+                continue
+            name = pipeline.rail_action_name(cat, i, cfg["v"])
+            fn = _slow_rail_action(cat, i, name) if cfg.get("slow") else fakes.make_rail_action(cat, i, name)
+            out.append(_falsy_variant(fn, name, REJECT_VALUES[how]) if how != "false" else fn)
+    return out
 
 
 pipeline.register_extension("c01", build_config=_ext_build, actions=_ext_actions)
@@ -367,6 +413,8 @@ def _conc_case(draw):
         types = [draw(st.sampled_from(EXC_TYPES)) if k in ("check", "both") else None for k in cfg["in"]]
         if any(x not in (None, EXC_DEFAULT) for x in types):
             cfg["in_exc"] = types
+    if v == 1:
+        _draw_reject_values(draw, cfg)
     cfg["ext"], cfg["slow"] = "c01", True
     routes = pipeline.routes_for(cfg)
     convs = []
@@ -389,6 +437,15 @@ def _conc_case(draw):
     return {"config": cfg, "conc": convs, "api": "async"}
 
 
+def _draw_reject_values(draw, cfg):
+    """dimension (Colang 1.0): what the action of each generated check / block-or-rewrite rail returns for 'not allowed' -
+    False (1 configuration in 3 throughout; 1 in 6 per rail otherwise), None (1 in 2), 0, the empty string."""
+    if draw(st.sampled_from([False, True, True])):
+        how = [draw(st.sampled_from(REJECT_HOW)) if k in ("check", "both") else None for k in cfg["in"]]
+        if any(x not in (None, "false") for x in how):
+            cfg["in_rej"], cfg["ext"] = how, "c01"
+
+
 @st.composite
 def _case(draw):
     if draw(st.sampled_from([False] * 5 + [True])):
@@ -397,6 +454,16 @@ def _case(draw):
     n_in = draw(st.sampled_from([1, 2, 2, 3, 3, 4]))
     cfg = {"v": v, "in": draw(pipeline.st_rail_kinds(v, n_in, n_in, "in")), "out": draw(pipeline.st_rail_kinds(v, 0, 2, "out"))}
     cfg["dialog"] = draw(st.booleans()) if v == 1 else draw(st.sampled_from([False, True, "llmc"]))
+    # dimension (Colang 1.0): OTHER generate calls on the same instance between two turns of the conversation (0 / 1-3 / 70-200);
+    # a conversation with many of them gets a rewriting rail (that is what later prompts can give away) and, 3 in 4, general mode
+    gap = draw(st.sampled_from([0] * 16 + GAP_SMALL + GAP_MANY)) if v == 1 else 0  # 4 in 6 none, 1 in 6 a few, 1 in 6 many
+    if gap >= 70:
+        if not any(k in ("rewrite", "both") for k in cfg["in"]):
+            cfg["in"][draw(st.integers(0, n_in - 1))] = draw(st.sampled_from(["rewrite", "both"]))
+        if draw(st.sampled_from([True, True, True, False])):
+            cfg["dialog"] = False
+    if v == 1:
+        _draw_reject_values(draw, cfg)
     cfg["exc"] = draw(st.sampled_from([False, False, True]))
     if v == 1:
         cfg["ret"] = draw(st.sampled_from([0, 0, 1]))
@@ -536,6 +603,16 @@ def _case(draw):
         if opts is not None:
             turn["options"] = opts
         turns.append(turn)
+    if gap and len(turns) >= 2:
+        g = draw(st.integers(1, len(turns) - 1))
+        turns[g]["between"] = gap
+        rw = [i for i, k in enumerate(cfg["in"]) if k in ("rewrite", "both")]
+        if gap >= 70 and rw and draw(st.sampled_from([True, True, False])):
+            # ... and, 2 in 3, the turn before them is one whose text a rail rewrites (no rail before that one rejects it)
+            i = draw(st.sampled_from(rw))
+            turns[g - 1]["in"] = ["accept"] * i + ["rewrite"] + turns[g - 1]["in"][i + 1:]
+        if len(turns) >= 3 and draw(st.sampled_from([False, False, True])):
+            turns[draw(st.integers(1, len(turns) - 1))].setdefault("between", draw(st.sampled_from(GAP_SMALL)))
     return {"config": cfg, "turns": turns, "api": draw(st.sampled_from(["sync", "async"] + (["events", "events"] if burst else [])))}
 
 
@@ -551,6 +628,44 @@ def enumerate_cases(tier):
     # flow that takes anything / a listener next to the main flow that waits for one literal text: every message heard by
     # ONE flow), both spellings; the matching text accepted, sent again and rejected by the last rail, then another turn
     # rejected by the first rail
+    # Colang 1.0, OTHER conversations served by the same instance between two turns (0 / 1 / 70 / 200 of them) x mode (general /
+    # dialog / passthrough+dialog) x which rail rewrites: turn 1 rewritten, the other conversations, turn 2 accepted, turn 3
+    # rewritten by the other rewriting rail after one more foreign call, turn 4 rejected
+    for a, n_other in enumerate((70, 0, 1, 200)):
+        for b, cfg in enumerate((
+            {"v": 1, "in": ["rewrite", "check", "both"], "out": [], "dialog": False, "exc": False, "ret": 0},
+            {"v": 1, "in": ["check", "both", "rewrite"], "out": ["check"], "dialog": True, "exc": False, "ret": 0},
+            {"v": 1, "in": ["both", "self", "rewrite"], "out": [], "dialog": True, "exc": True, "ret": 1, "passthrough": True},
+        )):
+            if n_other == 200 and b:
+                continue
+            first = [i for i, kind in enumerate(cfg["in"]) if kind in ("rewrite", "both")]
+            n_out = len(cfg["out"])
+            pat = lambda i: ["accept"] * i + ["rewrite"] + ["accept"] * (2 - i)  # noqa: E731
+            turns = [
+                {"user": f"{fakes.mk_user(0)} my secret is x", "route": "llm", "in": pat(first[0]), "out": ["accept"] * n_out, "body": "first answer"},
+                {"user": f"and {fakes.mk_user(1)} what did I say", "route": ("llm", "predef", "pl")[(a + b) % 3], "in": ["accept"] * 3, "out": ["accept"] * n_out, "body": "second answer", "between": n_other},
+                {"user": f"{fakes.mk_user(2)} tell me more", "route": "llm", "in": pat(first[1]), "out": ["accept"] * n_out, "body": "third answer", "between": 1},
+                {"user": f"no {fakes.mk_user(3)} never", "route": "llm", "in": ["accept", "reject", "accept"], "out": ["accept"] * n_out, "body": "fourth answer", "between": min(n_other, 2)},
+            ]
+            yield {"config": cfg, "turns": turns, "api": ("sync", "async")[(a + b) % 2]}
+    # Colang 1.0, what a rail action returns for 'not allowed' (False / None / 0 / "") x rail kinds that share a verdict variable
+    # ($allowed: check rails and the shipped rail; $vf_checked: block-or-rewrite rails) x refusal / rail exception: accepted turn,
+    # rejected by the last rail (the rails before it accept), rejected by the first rail, accepted again, rejected by the last again
+    for a, how in enumerate(("none", "zero", "empty", "false")):
+        for b, kinds in enumerate((["check", "check"], ["check"], ["both", "both"], ["self", "check"], ["check", "both", "check"], ["rewrite", "check", "self"])):
+            cfg = {"v": 1, "in": kinds, "out": [], "dialog": bool((a + b) % 3 == 2), "exc": bool((a + b) % 2), "ret": 0, "in_rej": [how if kind in ("check", "both") else None for kind in kinds], "ext": "c01"}
+            n = len(kinds)
+            last = max(i for i, kind in enumerate(kinds) if kind in ("check", "both"))
+            R_last, R_first = ["accept"] * last + ["reject"] + ["accept"] * (n - last - 1), ["reject"] + ["accept"] * (n - 1)
+            turns = [
+                {"user": f"{fakes.mk_user(0)} hello there", "route": "llm", "in": ["accept"] * n, "out": [], "body": "first answer"},
+                {"user": f"and {fakes.mk_user(1)} now", "route": "llm", "in": R_last, "out": [], "body": "second answer"},
+                {"user": f"no {fakes.mk_user(2)} never", "route": "predef", "in": R_first, "out": [], "body": "third answer"},
+                {"user": f"{fakes.mk_user(3)} tell me more", "route": "llm", "in": ["accept"] * n, "out": [], "body": "fourth answer"},
+                {"user": f"and {fakes.mk_user(1)} now", "umark": 1, "route": "llm", "in": R_last, "out": [], "body": "fifth answer"},
+            ]
+            yield {"config": cfg, "turns": turns, "api": ("sync", "async")[b % 2]}
     k = 0
     for style in ("config", "hand"):
         for exc in (False, True):
@@ -886,9 +1001,50 @@ def _turn_v2(p, s, t):
     return obs
 
 
+OTHER_T0 = 40  # turn number the fakes use for an interposed conversation (its LLM texts carry LM40C..Z)
+GAP_SMALL, GAP_MANY = [1, 1, 2, 3], [70, 80, 100, 200]
+
+
+def mk_other(t, n):
+    """Marker of the n-th unrelated conversation served between turn t - 1 and turn t."""
+    return f"OC{t}N{n}Z"
+
+
+def _other_call(p, case, t, n):
+    """One unrelated conversation of one turn (a text of its own, every rail accepts, the cheapest route) served by the
+    SAME LLMRails instance through the same API, with a session of its own: nothing of it shows in the observations of
+    the conversation under test."""
+    cfg = case["config"]
+    spec = {"user": f"{mk_other(t, n)} hello there", "route": "predef", "in": ["accept"] * len(cfg["in"]), "out": ["accept"] * len(cfg.get("out") or []), "body": "other answer"}
+    s = _Session({"config": cfg, "turns": [spec], "api": case.get("api", "sync")}, cfg)
+    s.turns = [{} for _ in range(OTHER_T0)] + [spec]
+    s.messages, s.state = [], None
+    o = p.turn(s, OTHER_T0)
+    if o["raised"]:
+        raise RuntimeError(f"generate raised in interposed conversation {n} before turn {t}: {o['raised']}")
+
+
+def _run_gaps(case, fresh):
+    """Colang 1.0: turn t of the conversation is preceded by spec["between"] other generate calls on the same instance."""
+    try:
+        p = pipeline.get_pipeline(case["config"], fresh=fresh)
+        s = p.new_session(case, _Session)
+        turns = []
+        for t, spec in enumerate(case["turns"]):
+            for n in range(spec.get("between") or 0):
+                _other_call(p, case, t, n)
+            turns.append(p.turn(s, t))
+        return pipeline.Observations(case, s, turns, p)
+    except BaseException:
+        pipeline.reset_runtime()
+        raise
+
+
 def _run_seq(case, fresh=False):
     """vf.pipeline.run_conversation with `_turn_v2` for the calls it has no shape for."""
     special = case["config"]["v"] == 2 and (case.get("api") == "events" or any(x.get("burst") for x in case["turns"]))
+    if case["config"]["v"] == 1 and any(x.get("between") for x in case["turns"]):
+        return _run_gaps(case, fresh)
     if not special:
         return pipeline.run_conversation(case, fresh=fresh, session_cls=_Session)
     try:
@@ -1112,7 +1268,8 @@ def _check_conc(case, fresh=False):
 def _model(cfg, spec, t):
     """pipeline.model_input with the literal texts of exact references in the place of the markers they have none of:
     the user text `$name` of a reference turn stands for `UM{t}Z`, the product `$name` of rewriting rail i for `RWI{i}U{t}Z`.
-    "literal": the texts that must be seen exactly (not just contained)."""
+    "literal": the texts that must be seen exactly (not just contained).  (A pre-rewrite literal that is part of the text a
+    rail must see - `$i` in `$input_flows` - cannot be told from it: no must-not-carry check for that call.)"""
     m = pipeline.model_input(cfg, spec, t)
     sub = {}
     if spec.get("ref"):
@@ -1121,7 +1278,7 @@ def _model(cfg, spec, t):
         if name is not None:
             sub[fakes.mk_rw_in(i, t)] = "$" + name
     f = lambda x: sub.get(x, x)  # noqa: E731
-    calls = [{"rail": c["rail"], "sees": f(c["sees"]), "not": (f(c["not"]) if c["not"] and f(c["not"]) != f(c["sees"]) else None), "verdict": c["verdict"]} for c in m["calls"]]
+    calls = [{"rail": c["rail"], "sees": f(c["sees"]), "not": (f(c["not"]) if c["not"] and f(c["not"]) not in f(c["sees"]) else None), "verdict": c["verdict"]} for c in m["calls"]]
     return {"calls": calls, "blocked": m["blocked"], "final": f(m["final"]), "orig": f(m["orig"]), "literal": set(sub.values())}
 
 
@@ -1193,6 +1350,10 @@ def _check(case, obs, t0=0):
         labels.append("exception-types=" + ("mixed" if len({exc_type(cfg, i) for i, k in enumerate(cfg["in"]) if k != "rewrite"}) > 1 else "one"))
     if "self" in cfg["in"]:
         labels.append("shipped-self-check-input")
+    if cfg.get("in_rej"):
+        labels.append("not-allowed-results=" + "+".join(sorted({reject_how(cfg, i) for i, k in enumerate(cfg["in"]) if k in ("check", "both")})))
+    family = {"check": "$allowed", "self": "$allowed", "both": "$vf_checked"}  # the verdict variable of the rail flow
+    truthy_before = set()  # verdict variables that an earlier judged turn left holding a truthy value
     if cfg.get("passthrough"):
         labels.append("passthrough" + ("+dialog" if cfg["dialog"] else ""))
     nt = False
@@ -1295,6 +1456,14 @@ def _check(case, obs, t0=0):
             if heard:
                 labels.append("blocked-while-heard-by>=2-flows")
                 nt = True
+            if v == 1 and kind in ("check", "both"):
+                how = reject_how(cfg, i)
+                labels.append("rejected-with-result=" + how)
+                if how != "false":
+                    if any(family.get(cfg["in"][k]) == family[kind] for k in range(i)):
+                        labels.append("falsy-non-False-reject-after-a-rail-with-the-same-verdict-variable-accepted-in-this-turn")
+                    if family[kind] in truthy_before:
+                        labels.append("falsy-non-False-reject-after-an-earlier-turn-left-the-verdict-variable-truthy")
             # (2) nothing else sees the message
             if gen:
                 raise Violation(
@@ -1366,6 +1535,18 @@ def _check(case, obs, t0=0):
                 for e in o["trace"]:
                     if e["cat"] == "out" and e.get("user_ctx") is not None and (m["final"] not in str(e["user_ctx"]) or (m["final"] in m["literal"] and e["user_ctx"] != m["final"])):
                         raise Violation("original-text-in-context", f"{what}: an output rail saw $user_message = {str(e['user_ctx'])[:80]!r}", {"turn": t})
+        if v == 1:
+            for k, c in zip(cfg["in"], m["calls"]):
+                if k in family:
+                    (truthy_before.add if c["verdict"] != "reject" else truthy_before.discard)(family[k])
+            n_other = spec.get("between") or 0
+            if n_other:
+                labels.append("other-conversations-on-the-instance-before-this-turn=" + ("1-3" if n_other <= 3 else "70+"))
+                if not raw_mode and not varied and any(orig not in sent_plain and orig != m["orig"] and orig not in ambiguous for _s, orig in rewritten_before):
+                    labels.append(("few" if n_other <= 3 else "many") + "-other-conversations-between-a-rewritten-turn-and-this-turn")
+                    nt = True
+            elif j >= 1 and any(x.get("between") for x in case["turns"]):
+                labels.append("other-conversations-on-the-instance-before-this-turn=0")
         # (5) later turns never see the original of a rewritten earlier message (Colang 1.0; not in raw passthrough
         #     mode, where the LLM is handed the caller's own message list)
         if m["final"] == m["orig"]:
